@@ -1,12 +1,18 @@
 #!/bin/bash
-# try_patch.sh <patch.diff> <Cnn> [Cnn...] : apply to /repo, run the checks, ALWAYS revert.
+# try_patch.sh <patch.diff> <Cnn> [Cnn...] : apply to /repo (or the worktree $TRY_REPO), run the checks, ALWAYS revert.
 p=$1; shift
-cd /repo || exit 2
-git diff --quiet || { echo "/repo dirty"; exit 2; }
+R=${TRY_REPO:-/repo}
+cd $R || exit 2
+git diff --quiet || { echo "$R dirty"; exit 2; }
 git apply "$p" || { echo "patch does not apply"; exit 2; }
 for c in "$@"; do
-  (cd /verif && ./check $c 2>&1 | grep -E "VIOLATION|CHECK-FAILED|KNOWN|^  |ok \(|VIOLATED") 
+  if [ "$R" = /repo ]; then
+    (cd /verif && ./check $c 2>&1 | grep -E "VIOLATION|CHECK-FAILED|KNOWN|^  |ok \(|VIOLATED")
+  else
+    t=$(basename $R)
+    (cd /verif && VERIF_REPO=$R VERIF_CACHE_TAG=-$t VERIF_EVIDENCE=/tmp/evidence-$t ./check $c 2>&1 | grep -E "VIOLATION|CHECK-FAILED|KNOWN|^  |ok \(|VIOLATED")
+  fi
 done
-git -C /repo checkout -- .
-git -C /repo clean -fdq src
-git -C /repo status --short | head -3
+git -C $R checkout -- .
+git -C $R clean -fdq src
+git -C $R status --short | head -3
